@@ -472,6 +472,7 @@ def _co_update(ctx, rid, cls, tab):
         return 0
     containers = [k for k, e in tab.items() if e.get("kind") == "guarded" and not e.get("inferred")]
     writers = {k: {} for k in new}         # field -> {function name: site}
+    wsites = {k: [] for k in new}          # field -> [(site, held mutexes, top, inst)]
     changers = {c: {} for c in containers}
     for f, top in class_functions(fb, cls):
         if top.kind in ("ctor", "dtor"):
@@ -483,6 +484,9 @@ def _co_update(ctx, rid, cls, tab):
                 is_load = acc in READ_KINDS or _atomic_call_is_load(f, user)
                 if not is_load:
                     writers[nm].setdefault(top.name, f.loc(st))
+                    la_ = locks_of(eng, fb, f)
+                    pos_ = f.pos_of(st)
+                    wsites[nm].append((f.loc(st), {m for m, mo, _k in la_.held_at(pos_)} if pos_ else set(), top, f.qname))
             if nm in changers:
                 par = f.par(st)
                 while par is not None and (par["k"] in WRAPPERS or (par["k"] == "MemberExpr" and not par["m"].get("is_field"))):
@@ -502,6 +506,15 @@ def _co_update(ctx, rid, cls, tab):
             ctx.note("new member %s is written together with size changes of several containers (%s): not attributed to one"
                      % (fld, ", ".join(c for _n, c in fits)))
             continue
+        # the bookkeeping changes in the same critical section as the container it describes
+        g = "this." + tab[best[1]]["guard"] if tab[best[1]].get("guard") else None
+        if g:
+            for site, held, top, inst in wsites[fld]:
+                ok = g in held
+                ctx.ob(rid, ok, site, "%s is updated inside the critical section (%s) in which %s changes" % (fld, g[5:], best[1]),
+                       "" if ok else "%s is written here without %s: the value describes a state of %s that other threads may already "
+                       "have changed (a stale count overwrites a newer one)" % (fld, g[5:], best[1]), fn=top.label, inst=inst)
+                n += 1
         for c, ch in changers.items():
             if c != best[1]:
                 continue
